@@ -764,6 +764,11 @@ def dispInserts (o : DisplayOpts) : Nat → Disp → Disp
   | 0, s => s
   | k + 1, s => dispInserts o k (dispInsert o s)
 
+/-- several `solve()` calls: `k` insertions followed by `end()`, for each `k` of the list -/
+def dispCalls (o : DisplayOpts) : List Nat → Disp → Disp
+  | [], s => s
+  | k :: ks, s => dispCalls o ks (dispEnd o (dispInserts o k s))
+
 /-! ## `itstat_func_and_object`: the options merge (a pure function of the caller's dict) -/
 
 section
